@@ -200,15 +200,21 @@ def run_lists(acc, L, first, tier):
             sort_case(acc, idx, 'tract', key)
 
 
-def invalid_case(acc, key, kind):
-    case = {'kind': 'invalid_' + kind, 'key': key}
-    ckey = f"invalid|{kind}|{key}"
+def invalid_case(acc, key, kind, n=None):
+    case = {'kind': 'invalid_' + kind, 'key': key, 'n': n}
+    ckey = f"invalid|{kind}|{key}|{n}"
+    pool = POOL if n is None else POOL[:n]
     try:
         if kind == 'trs':
-            tl = _p.TRSList(POOL)
+            tl = _p.TRSList(pool)
+        elif kind == 'plss':
+            tl = _p.PLSSDesc('T154N-R97W Sec 14: NE/4')
         else:
-            tl = _p.TractList([_p.Tract('x', trs=s) for s in POOL])
-        tl.custom_sort(key)
+            tl = _p.TractList([_p.Tract('x', trs=s) for s in pool])
+        if kind == 'plss':
+            tl.sort_tracts(key)
+        else:
+            tl.custom_sort(key)
         res = 'accepted'
     except ValueError:
         res = 'ValueError'
@@ -259,6 +265,10 @@ def run_unit(unit, tier):
         for key in INVALID:
             invalid_case(acc, key, 'trs')
             invalid_case(acc, key, 'tract')
+            for n in (0, 1, 2):        # also on an empty, a one-element and a two-element list
+                invalid_case(acc, key, 'trs', n)
+                invalid_case(acc, key, 'tract', n)
+            invalid_case(acc, key, 'plss')      # a description with a single tract, through sort_tracts
     else:
         ks = list(KEYS1) + [a + ',' + b for a in KEYS_SHORT for b in KEYS_SHORT]
         for ti in range(len(PLSS_TEXTS)):
@@ -273,7 +283,7 @@ def replay(case):
         idx = tuple(POOL.index(s) for s in case['list'])
         sort_case(acc, idx, case['kind'], case['key'])
     elif case['kind'].startswith('invalid_'):
-        invalid_case(acc, case['key'], case['kind'][len('invalid_'):])
+        invalid_case(acc, case['key'], case['kind'][len('invalid_'):], case.get('n'))
     else:
         plss_case(acc, case['text'], case['key'])
     return acc.viol
